@@ -6,6 +6,6 @@ Extraction Language OCaml.
 Extraction "C14_model.ml"
   N.add N.mul N.div_eucl N.ltb N.leb N.eqb N.min len
   wb_from_stream_type wb_from_uni wb_from_bidi wb_from_frame wb_from_pair
-  wb_remaining wb_chunk wb_advance wb_view
+  wb_remaining wb_chunk wb_advance wb_view wb_chunks_vectored wb_copy_to_bytes
   setup step run stream_wire
-  rfc_varint rfc_frame rfc_judge_uni rfc_judge_request verdict_ok rfc_reserved rfc_read_varint rfc_read_frame rfc_settings_pairs rfc_h2_setting.
+  rfc_varint rfc_frame rfc_judge_uni rfc_judge_request verdict_ok rfc_reserved rfc_read_varint rfc_read_frame rfc_frames rfc_settings_pairs rfc_h2_setting.
